@@ -140,6 +140,13 @@ def check(prog, ctx):
             got = 'exit'
         else:
             v = o.value
+            if isinstance(v, sp.Piecewise):
+                # a conditional return (ternary): the alternative selected by this row
+                for e_, c_ in v.args:
+                    cv_ = c_ if c_ in (True, False, S.true, S.false) else c_.subs({x: xv, a: av})
+                    if cv_ == S.true or cv_ is True:
+                        v = e_
+                        break
             if v == 1:
                 got = 'one'
             else:
